@@ -10,7 +10,7 @@
    hand-transcribed eq_np / eq_borders / spacing, compared with the grid objects on every run. *)
 From Coq Require Import ZArith List QArith Qcanon Bool Arith Lia.
 From SG Require Import Base.QcUtil Base.PyLib Base.PyNum Base.PyNumMath Model.Tensor Model.LocalGrids Model.LocalRules
-  Gen.LocalGrid1DGen Proofs.TensorRule Proofs.LocalGridsBase Proofs.LocalGridsTrap Proofs.LocalGridsMain Proofs.GenLocalGridsEq Proofs.TouchTol.
+  Gen.LocalGrid1DGen Proofs.TensorRule Proofs.LocalGridsBase Proofs.LocalGridsTrap Proofs.LocalGridsMain Proofs.GenLocalGridsEq Proofs.TouchTol Gen.Grid1dAreaGen Proofs.GenGrid1dAreaEq.
 Import ListNotations.
 Open Scope Qc_scope.
 
@@ -117,6 +117,45 @@ Proof.
   exact (gen_announced_is_returned fixed H true modb bnd x Ht E1 E2).
 Qed.
 Print Assumptions C08_gen_announced_is_returned_clear.
+
+(* ---- phase 4: the BORDER BOOKKEEPING from the source.  Grid1d.set_current_area (coq/Gen/Grid1dAreaGen.v, generated by
+   harness/translate/py2gallina_c08_area.py: attribute writes = updates of a state record) writes exactly the values the hand model
+   transcribes - for EVERY object state before the call (whatever earlier areas left in the attributes), every area and level, every
+   subclass whose count depends on the record only through the boundary flag once the area is set (N), with the touch tests of the
+   code.  lowerBorder / upperBorder are `borders` of Model/LocalGrids.v, spacing is `spacing`; the boundary flag is restored. ---- *)
+Theorem C08_gen_set_current_area_is_model : forall oracle a b s e level (N : bool -> nat),
+  (forall self, f_a self = a -> f_b self = b -> f_start self = s -> f_end self = e ->
+     oracle self level = Some (Z.of_nat (N (f_boundary self)))) ->
+  (1 <= N true)%nat ->
+  forall self0, f_a self0 = a -> f_b self0 = b ->
+  exists self', Grid1d_set_current_area oracle self0 s e level = Some self' /\
+    f_boundary self' = f_boundary self0 /\ f_a self' = a /\ f_b self' = b /\
+    f_start self' = s /\ f_end self' = e /\ f_level self' = level /\
+    f_num_points self' = Z.of_nat (N (f_boundary self0)) /\
+    f_num_points_with_boundary self' = Z.of_nat (N true) /\
+    f_length self' = e - s /\
+    (f_lowerBorder self', f_upperBorder self')
+      = (Z.of_nat (fst (borders (f_boundary self0) (N (f_boundary self0)) (N true) (touch_tol s a a b) (touch_tol e b a b))),
+         Z.of_nat (snd (borders (f_boundary self0) (N (f_boundary self0)) (N true) (touch_tol s a a b) (touch_tol e b a b)))) /\
+    f_spacing self' = (if (N true =? 1)%nat then None else Some (spacing s e (N true))).
+Proof. exact gen_set_current_area. Qed.
+Print Assumptions C08_gen_set_current_area_is_model.
+
+(* LejaGrid1D.level_to_num_points_1d (translatable since the repair 28a24e9): the count of the repaired model *)
+Theorem C08_gen_leja_level_to_num_points : forall bnd s e a b l,
+  LejaGrid1D_level_to_num_points_1d bnd s e a b 2 (Z.of_nat l)
+  = Some (Z.of_nat (num_points_eq bnd (touch_tol s a a b) (touch_tol e b a b) (leja_npwb l))).
+Proof. exact gen_leja_level_to_num_points. Qed.
+Print Assumptions C08_gen_leja_level_to_num_points.
+
+(* non-vacuity: a trapezoid-like subclass (N true = 5, N false = 4) on an object with STALE border indices 7, 9 from an earlier area:
+   the area [0, 1/2] of the domain [0, 1] touches the lower side - the call writes lowerBorder 1, upperBorder 5 *)
+Example C08_gen_set_current_area_nonvacuous :
+  let stale := mk_Grid1d false (Q2Qc 0) (Q2Qc 1) (Q2Qc (1#4)) (Q2Qc (1#2)) 3 9 9 (Q2Qc (1#4)) 7 9 None in
+  let oracle := fun (self : Grid1d_t) (_ : Z) => Some (if f_boundary self then 5 else 4)%Z in
+  option_map (fun r => (f_lowerBorder r, f_upperBorder r, f_num_points r, f_boundary r))
+    (Grid1d_set_current_area oracle stale (Q2Qc 0) (Q2Qc (1#2)) 2) = Some (1, 5, 4, false)%Z.
+Proof. vm_compute. reflexivity. Qed.
 
 (* non-vacuity: the generated functions evaluate (sub-box touching the lower boundary, level 2, modified basis) *)
 Example C08_gen_nonvacuous :
